@@ -135,6 +135,18 @@ func genPlan(t *rapid.T, tier string) any {
 			Base:   rapid.SampledFrom([]int64{5 * day, 5*day + hour}).Draw(t, "tbase"),
 			Secs:   rapid.SampledFrom([]int64{-3600, -61, -60, -1, 0, 1, 60, 61, 3600}).Draw(t, "tjitter")})
 	}
+	if rapid.IntRange(0, 9).Draw(t, "looktemplate") == 0 {
+		// scenario: an entry a little under five days old is looked up by another goroutine while a due Trim
+		// scans; the next Trim, a day or more later, must still find it recently used
+		id := rapid.IntRange(0, nIDs-1).Draw(t, "lid")
+		c := rapid.IntRange(0, nc-1).Draw(t, "lcontent")
+		p.Steps = append(p.Steps,
+			Step{Kind: "put", ID: id, Content: c},
+			Step{Kind: "advance", Secs: rapid.SampledFrom([]int64{3 * day, 4 * day, 4*day + 23*hour, 5*day - 60}).Draw(t, "lage")},
+			Step{Kind: "trim", ID: id, Look: true, Nth: rapid.SampledFrom([]int{0, 1, 16, 17, 100, 255}).Draw(t, "lat")},
+			Step{Kind: "advance", Secs: rapid.SampledFrom([]int64{day + 60, day + hour, 2 * day, 4 * day}).Draw(t, "lgap")},
+			Step{Kind: "trim", ID: id})
+	}
 	for i := 0; i < n; i++ {
 		s := Step{ID: rapid.IntRange(0, nIDs-1).Draw(t, "id")}
 		switch k := rapid.IntRange(0, 26).Draw(t, "kind"); {
@@ -764,7 +776,7 @@ var harness = &simcheck.Harness{
 	Level:    "exploration",
 	Rule: "rapid draws a history of up to 16 (quick) / 30 (thorough) steps: Put, Get, GetBytes, GetFile, OutputFile, clock advances drawn mostly from boundary values " +
 		"(1s ... 24h+-1m, 5d+-1m, 5d1h+-1s/1m, 30d), Trim, trim-record rewrites (valid with recent/old/future offsets, garbage, empty, missing), foreign files, " +
-		"directly aged entry files, and (a quarter of the plans) backward clock jumps; plus macro steps (look an entry up after a gap of under two hours; move the clock to an entry file's last use + 5d or 5d1h +- jitter and Trim; move it to the trim record + 24h +- jitter and Trim; a Trim whose process halts before its k-th file operation; a Trim one of whose removals fails with EPERM/EBUSY/EIO/EACCES - that file may stay, every other stale entry must still go; a Trim during which the trim record cannot be opened or read - a due trim must still do all its work; a Trim whose record write fails with ENOSPC - it may report failure, later trims must work; a Trim during whose scan the clock moves forward by 1 s to 59 min; an eighth of the plans with one of the cache's subdirectories missing; a Trim during whose scan another goroutine looks an entry up on the same handle, released at a drawn directory listing and then scheduled freely), half the plans with all action ids in one cache subdirectory, a third starting with a store / two lookups / trim-at-threshold scenario, foreign non-empty directories with entry-like names inside an entry subdirectory; non-trivial = the history contains a Trim; " +
+		"directly aged entry files, and (a quarter of the plans) backward clock jumps; plus macro steps (look an entry up after a gap of under two hours; move the clock to an entry file's last use + 5d or 5d1h +- jitter and Trim; move it to the trim record + 24h +- jitter and Trim; a Trim whose process halts before its k-th file operation; a Trim one of whose removals fails with EPERM/EBUSY/EIO/EACCES - that file may stay, every other stale entry must still go; a Trim during which the trim record cannot be opened or read - a due trim must still do all its work; a Trim whose record write fails with ENOSPC - it may report failure, later trims must work; a Trim during whose scan the clock moves forward by 1 s to 59 min; an eighth of the plans with one of the cache's subdirectories missing; a Trim during whose scan another goroutine looks an entry up on the same handle, released at a drawn directory listing and then scheduled freely), half the plans with all action ids in one cache subdirectory, a third starting with a store / two lookups / trim-at-threshold scenario, a tenth with a store / age / lookup-during-trim / next-trim scenario, foreign non-empty directories with entry-like names inside an entry subdirectory; non-trivial = the history contains a Trim; " +
 		"distinct by the hash of the intercepted file-operation sequence",
 	Gen:     genPlan,
 	NewPlan: func() any { return &Plan{} },
